@@ -12,6 +12,8 @@
 //                           N = a <log label="N"> ran;  config: ids of active states that are numbers
 //                receive/cancel -> ok      reset -> state:<getState()>     destroy -> destroyed
 //                and "end" after the implicit destruction at the end of the case.
+//   lifecycle_enum
+//        the compiled values of enum InterpreterState
 //   cancelblock <engine> <xml-hex> <script> <timeout_ms> [sched-item...]
 //        a stepper thread (role "stepper") loops step(forever) until FINISHED; the main thread (role
 //        "canceller") plays <script> (comma separated: w<ms> wait, r<N> receive, c cancel, p<k> wait until
@@ -364,6 +366,16 @@ std::string run_child(void (*body)(const std::vector<std::string>&), const std::
 	return out;
 }
 
+// the compiled values of enum InterpreterState (cross-check of tools/translate/tr_flags.py)
+std::string cmd_lifecycle_enum(const std::vector<std::string>& a) {
+	std::ostringstream os;
+	os << "FINISHED=" << (int)USCXML_FINISHED << " UNDEF=" << (int)USCXML_UNDEF << " IDLE=" << (int)USCXML_IDLE
+	   << " INITIALIZED=" << (int)USCXML_INITIALIZED << " INSTANTIATED=" << (int)USCXML_INSTANTIATED
+	   << " MICROSTEPPED=" << (int)USCXML_MICROSTEPPED << " MACROSTEPPED=" << (int)USCXML_MACROSTEPPED
+	   << " CANCELLED=" << (int)USCXML_CANCELLED;
+	return os.str();
+}
+
 std::string cmd_lifecycle(const std::vector<std::string>& a) {
 	if (a.size() < 3) return "ERR usage";
 	return run_child(child_lifecycle, a, 8000);
@@ -380,5 +392,6 @@ std::string cmd_teardown(const std::vector<std::string>& a) {
 }  // namespace
 
 VD_REGISTER(lifecycle, cmd_lifecycle)
+VD_REGISTER(lifecycle_enum, cmd_lifecycle_enum)
 VD_REGISTER(cancelblock, cmd_cancelblock)
 VD_REGISTER(teardown, cmd_teardown)
